@@ -216,8 +216,7 @@ def plan(tier, seed):
                     if r.random() < 0.4:
                         acts.append({"when": ["end", r.randrange(first, first + 4)], "do": "settings", "settings": {"3": r.choice([3, 10])}})
                     over.update(h2_settings={3: first}, h2_script={"actions": acts}, n_origins=1, max_connections=1,
-                                n_callers=r.randint(4, 8), resp_delay=r.choice([0.1, 1.0]), think=r.choice([0.0, 0.3]),
-                                trace_yields=False)
+                                n_callers=r.randint(4, 8), resp_delay=r.choice([0.1, 1.0]), think=r.choice([0.0, 0.3]))
                     n_settings_specs[0] += 1
             specs.append(gen_spec(r, flavor, **over))
         cases.append({"flavor": flavor, "specs": specs, "seed": r.randrange(1 << 30)})
